@@ -11,7 +11,7 @@ import (
 
 func init() {
 	registerRule("cut-check", 20, "every recursion of the expander is structural descent or a followed $ref guarded by the cycle cut, with the parent stack extended by the same canonical ref", ruleCutCheck)
-	registerRule("nilres", 17, "a nil expander result implies a non-nil error, and results are only dereferenced where non-nil is guaranteed", ruleNilRes)
+	registerRule("nilres", 12, "a nil expander result implies a non-nil error, and results are only dereferenced where non-nil is guaranteed", ruleNilRes)
 	registerRule("no-panic-path", 55, "the panic-capable sites reachable from the expand/resolve entry points are exactly the audited ones", ruleNoPanicPath)
 }
 
